@@ -216,7 +216,63 @@ fn run_once(s: &Scenario, prefix: &[usize]) -> RunOut {
     let mut error: Option<String> = None;
     let mut cipher_differs = false;
 
-    if s.dir == "write" {
+    if s.dir == "write_cancel" {
+        // before every message a write of *other* bytes of the same length is started and polled once: if the
+        // transport answers Pending the future is dropped (nothing was reported written); if it accepts n bytes,
+        // those n bytes were reported written. Then the real message is written completely.
+        let mut c = Cfb8::new(&secret);
+        let mut expect_all: Vec<u8> = vec![];
+        for (i, len) in s.msgs.iter().enumerate() {
+            if i == s.switch {
+                let (e, d) = create_ciphers(&secret).expect("ciphers");
+                stream.set_encryption(Some(e), Some(d));
+            }
+            let decoy: Vec<u8> = (0..*len).map(|j| (0xA0 ^ (i * 17 + j * 3)) as u8).collect();
+            let accepted_of_decoy = {
+                let mut fut = std::pin::pin!(stream.write(&decoy));
+                let mut cx = Context::from_waker(Waker::noop());
+                match fut.as_mut().poll(&mut cx) {
+                    Poll::Ready(Ok(n)) => n,
+                    Poll::Ready(Err(e)) => {
+                        error = Some(format!("write failed: {e}"));
+                        0
+                    }
+                    Poll::Pending => 0, // abandoned: the future is dropped here
+                }
+            };
+            let m = message(i, *len);
+            let mut reported: Vec<u8> = decoy[..accepted_of_decoy].to_vec();
+            reported.extend_from_slice(&m);
+            if i >= s.switch {
+                let enc = c.encrypt(&reported);
+                if enc != reported {
+                    cipher_differs = true;
+                }
+                expect_all.extend_from_slice(&enc);
+            } else {
+                expect_all.extend_from_slice(&reported);
+            }
+            let r = drive(async {
+                stream.write_all(&m).await?;
+                stream.flush().await
+            });
+            let acc = wire.lock().unwrap().accepted.clone();
+            match r {
+                Some(Ok(())) if acc == expect_all => {}
+                Some(Ok(())) => {
+                    let at = acc.iter().zip(expect_all.iter()).position(|(a, b)| a != b).unwrap_or(acc.len().min(expect_all.len()));
+                    error = Some(format!(
+                        "after an abandoned write and write_all+flush of message {i} the transport holds {} bytes {}, the encryption of the bytes reported written is {} bytes {}; first difference at byte {at}",
+                        acc.len(), hex(&acc), expect_all.len(), hex(&expect_all)
+                    ));
+                }
+                other => error = Some(format!("write_all of message {i}: {other:?}")),
+            }
+            if error.is_some() {
+                break;
+            }
+        }
+    } else if s.dir == "write" {
         let reference = reference_stream(s, true);
         let mut expect_all: Vec<u8> = vec![];
         for (i, len) in s.msgs.iter().enumerate() {
@@ -322,7 +378,7 @@ struct Counters {
 }
 
 fn classify(labels: &[String], s: &Scenario) -> String {
-    let side = if s.dir == "write" { "write" } else { "read" };
+    let side = if s.dir == "write" { "write" } else if s.dir == "write_cancel" { "write-after-abandoned-write" } else { "read" };
     let mut kinds = vec![];
     if labels.iter().any(|l| l.contains("accept") || l.contains("deliver")) {
         kinds.push("partial");
@@ -401,7 +457,7 @@ pub fn run(cli: Cli) -> ! {
     let thorough = cli.tier.thorough();
     let secrets = ["00000000000000000000000000000000", "ffffffffffffffffffffffffffffffff", &hex(b"verysecuresecret"), "000102030405060708090a0b0c0d0e0f"];
     let mut jobs: Vec<(Scenario, usize)> = vec![];
-    for dir in ["write", "read_exact", "read_take"] {
+    for dir in ["write", "write_cancel", "read_exact", "read_take"] {
         for (si, sec) in secrets.iter().enumerate() {
             // complete exploration (every answer sequence, at most one Pending between progress steps)
             let small: Vec<Vec<usize>> = if thorough {
